@@ -2,6 +2,7 @@ package props
 
 import (
 	"fmt"
+	"runtime"
 	"sync"
 	"time"
 
@@ -138,5 +139,59 @@ func c08Instantiations(id string) core.Scenario {
 		c08InstOne[error](c, "error", true, func(i int) error { return c06Named{i} }, func(v error) int { return v.(c06Named).n })
 		c08InstOne[*c06Named](c, "*struct", false, func(i int) *c06Named { return &c06Named{i} }, func(v *c06Named) int { return v.n })
 		c08InstOne[func() int](c, "func", true, func(i int) func() int { return func() int { return i } }, func(v func() int) int { return v() })
+	}}
+}
+
+// quiet periods: the queue is left alone for about a hundred loader intervals (anything that goes to sleep, retires or
+// is torn down when idle does so now), then a burst goes through the overflow list and must come out again
+func c07IdleThenBurst(id string, interval time.Duration, rounds int, seed int64) core.Scenario {
+	return core.Scenario{ID: id, Class: "BufferedChannelQueue.idle", Run: func(c *core.Ctx) {
+		c.Eval(int64(rounds))
+		c.Distinct(id)
+		q := fpgo.NewBufferedChannelQueue[int64](2, 16, 4)
+		q.SetLoadFromPoolDuration(interval)
+		q.SetFreeNodeHookPoolIntervalDuration(interval)
+		defer func() { core.Catch(q.Close) }()
+		next, want := int64(1), int64(1)
+		for r := 0; r < rounds; r++ {
+			// idle for 95..125 loader intervals (jitter from the round number and the seed)
+			idle := interval * time.Duration(95+(int64(r)*7+seed)%31)
+			for t0 := time.Now(); time.Since(t0) < idle; {
+				runtime.Gosched()
+			}
+			burst := 3 + r%6
+			for i := 0; i < burst; i++ {
+				if err := q.Offer(next); err != nil {
+					c.Violationf("idle:offer-refused", map[string]any{"scenario": id, "round": r}, "round %d: Offer returned %v on a queue of capacity 2+16 holding %d values", r, err, q.Count())
+					return
+				}
+				next++
+			}
+			empties := 0
+			for want < next {
+				v, err := q.Poll()
+				if err == nil {
+					if v != want {
+						c.Violationf("idle:order", map[string]any{"scenario": id, "round": r}, "round %d: Poll returned %d, want %d", r, v, want)
+						return
+					}
+					want++
+					empties = 0
+					continue
+				}
+				empties++
+				time.Sleep(interval)
+				if empties >= 20000 {
+					// 20000 polls, each of which wakes the loader and then waits a loader interval
+					if quiet, dump := core.QuietNow(); quiet {
+						c.Violationf("stranded:after-idle-period", map[string]any{"scenario": id, "round": r, "goroutines": core.RepoGoroutineSummary(dump)},
+							"after an idle period of %v (loader interval %v) a burst of %d values was accepted; %d of them are still held (Count()=%d) but 20000 Polls in a row reported empty and no library goroutine can act", idle, interval, burst, next-want, q.Count())
+					} else {
+						c.Inconclusive("values not delivered after 20000 polls but the loader is still active in " + id)
+					}
+					return
+				}
+			}
+		}
 	}}
 }
